@@ -983,6 +983,9 @@ func (fv *FnV) loopHead(li *loopInfo, st *State) error {
 		if cl := fv.k.Rereads[li.ordinal]; cl != nil {
 			fv.rereadsForm(li, cl)
 		}
+		if cl := fv.k.Unconditional[li.ordinal]; cl != nil {
+			fv.unconditionalForm(li, cl)
+		}
 	}
 	li.entrySt = st.clone()
 	// 2. havoc
@@ -1003,6 +1006,8 @@ func (fv *FnV) loopHead(li *loopInfo, st *State) error {
 			if c, ok := bi.(ssa.CallInstruction); ok && c.Pos().IsValid() {
 				flag := fmt.Sprintf("X|call%d", int(c.Pos()))
 				st.heap[flag] = fv.c.Fresh("maybe!called", sBool)
+				// a new iteration begins: in it the call has not been made yet
+				st.heap[fmt.Sprintf("X|iter%d", int(c.Pos()))] = "false"
 			}
 		}
 	}
@@ -1329,6 +1334,35 @@ func (fv *FnV) exhaustiveForm(li *loopInfo, cl *Clause) {
 		goal = "false"
 	}
 	o := fv.emit(nil, "O", fmt.Sprintf("loop%d.%s", li.ordinal, cl.Label), cl.Props, goal, "the loop is left only when its range is exhausted or by a return: "+cl.Text, li.header.Instrs[0].Pos())
+	if why != "" {
+		o.Static = "fails: " + why
+		o.Script = ""
+	}
+}
+
+// unconditionalForm: no block of the loop other than its header has two successors, and none leaves the loop: every
+// iteration runs every instruction of the body (no `continue`, `break` or early return skips a part of it).
+func (fv *FnV) unconditionalForm(li *loopInfo, cl *Clause) {
+	why := ""
+	for b := range li.body {
+		if b == li.header {
+			continue
+		}
+		last := b.Instrs[len(b.Instrs)-1]
+		if len(b.Succs) != 1 {
+			why = "block " + b.String() + " (" + fv.posString(last.Pos()) + ") branches or returns inside the loop"
+			break
+		}
+		if t := b.Succs[0]; !li.body[t] && t != li.header {
+			why = "block " + b.String() + " (" + fv.posString(last.Pos()) + ") leaves the loop"
+			break
+		}
+	}
+	goal := "true"
+	if why != "" {
+		goal = "false"
+	}
+	o := fv.emit(nil, "O", fmt.Sprintf("loop%d.%s", li.ordinal, cl.Label), cl.Props, goal, "every iteration runs the whole body: "+cl.Text, li.header.Instrs[0].Pos())
 	if why != "" {
 		o.Static = "fails: " + why
 		o.Script = ""
